@@ -130,7 +130,9 @@ where
     let diff_pattern = format!(r"^\+\+\+\s(?:.*?/){{{skip_prefix}}}(\S*)");
     let diff_pattern = Regex::new(&diff_pattern).unwrap();
 
-    let lines_pattern = Regex::new(r"^@@.*\+(\d+)(,(\d+))?").unwrap();
+    // The post-image range is the first `+start[,count]` of the hunk header: a greedy `.*`
+    // would skip ahead to a `+<digits>` in the section heading that may follow the second `@@`.
+    let lines_pattern = Regex::new(r"^@@.*?\+(\d+)(,(\d+))?").unwrap();
 
     let file_filter = Regex::new(&format!("^{file_filter}$"))?;
 
